@@ -111,17 +111,33 @@ Fixpoint assoc_set {A} (x : string) (v : A) (l : list (string * A)) : list (stri
   | (k, w) :: r => if String.eqb x k then (k, v) :: r else (k, w) :: assoc_set x v r
   end.
 
-(* M: the running frame's slot 0 is the receiver of super accesses; `super` is the captured value *)
-Definition sem_mech : sem := mkSem
+(* the `self` (or `Self`) of the textually enclosing method: compiler.rs `super_` resolves the first non-empty
+   `locals[0].name` walking the compiler stack outwards, i.e. that local, captured as an upvalue by nested functions *)
+Definition lexical_self (st : state) (c : ctx) : res value :=
+  match c_self c with
+  | Some v => Ok v
+  | None => Stuck "super outside a method"
+  end.
+
+Definition no_super : string := "super outside a class with a superclass".
+
+(* M: `super` is the value captured at class definition; the receiver of a super access is the enclosing method's
+   self.  old_super = true is the compiler BEFORE commit 0fbde2d (`s.compiler().locals[0]`: slot 0 of the RUNNING
+   frame, i.e. the nested closure itself inside a nested function); kept only for `eval_mech_eq_spec_refuted_old`. *)
+Definition super_receiver (old_super : bool) (st : state) (c : ctx) : res value :=
+  if old_super then Ok (c_slot0 c) else lexical_self st c.
+
+Definition sem_mech_gen (old_super : bool) : sem := mkSem
   (fun st recv n => get_property (world_of st) recv n)
   (fun st recv n argc => invoke (world_of st) recv n argc)
   (fun st c n => match c_super c with
-                 | Some sup => get_super (world_of st) sup (c_slot0 c) n
-                 | None => Stuck "super outside a class with a superclass"%string
+                 | Some sup => rbind (super_receiver old_super st c) (fun recv => get_super (world_of st) sup recv n)
+                 | None => Stuck no_super
                  end)
   (fun st c n argc => match c_super c with
-                      | Some sup => super_invoke (world_of st) sup (c_slot0 c) n argc
-                      | None => Stuck "super outside a class with a superclass"
+                      | Some sup => rbind (super_receiver old_super st c)
+                                          (fun recv => super_invoke (world_of st) sup recv n argc)
+                      | None => Stuck no_super
                       end)
   (fun st r q => derives (mstore st) r q)
   (fun st => List.length (classes (mstore st)))
@@ -130,14 +146,9 @@ Definition sem_mech : sem := mkSem
                | _ => None
                end).
 
-(* S: the receiver of a super access is the `self` (or `Self`) of the textually enclosing method *)
-Definition lexical_self (st : state) (c : ctx) : res value :=
-  match c_self c with
-  | Some v => Ok v
-  | None => Stuck "super outside a method"
-  end.
+Definition sem_mech : sem := sem_mech_gen false.
+Definition sem_mech_old : sem := sem_mech_gen true.
 
-Definition no_super : string := "super outside a class with a superclass".
 
 Definition spec_super_ctx {A} (st : state) (c : ctx) (k : nat -> value -> res A) : res A :=
   match c_owner c with
@@ -504,6 +515,7 @@ Definition default_fuel : nat := 1200.
 Definition run (S : sem) (p : prog) : state * oc := ev S default_fuel ctx0 (TS p) st0.
 Definition eval_spec (p : prog) : state * oc := run sem_spec p.
 Definition eval_mech (p : prog) : state * oc := run sem_mech p.
+Definition eval_mech_old (p : prog) : state * oc := run sem_mech_old p.
 
 (* ---------- observable result as text ---------- *)
 Definition sep : string := "~".
@@ -566,7 +578,8 @@ Definition is_super (e : event) : bool := match e with EvSuper _ _ _ => true | _
 Definition nontrivial (st : state) : bool :=
   existsb (is_mid_override (hist st)) (trace st) && existsb is_super (trace st).
 
-(* ---------- known class: `super` inside a function nested in a method (receiver = the nested closure) ---------- *)
+(* ---------- `super` inside a function nested in a method: a coverage measure (it was the known class of the
+   compiler before commit 0fbde2d, see sem_mech_old) ---------- *)
 Fixpoint expr_has_super (e : expr) : bool :=
   match e with
   | ESuperGet _ | ESuperInvoke _ _ => true
@@ -597,7 +610,7 @@ Fixpoint stmt_known (in_fn : bool) (s : stmt) : bool :=
   | SBlock body | STry body => ss body
   end.
 
-Definition known_class (p : prog) : bool := existsb (stmt_known false) p.
+Definition nested_super (p : prog) : bool := existsb (stmt_known false) p.
 
 (* ---------- the metamorphic variant: every statement-level `e.n(args)` becomes `var t = e.n; t(args)` ---------- *)
 Fixpoint meta_stmt (s : stmt) : list stmt :=
@@ -700,10 +713,10 @@ Definition render (p : prog) : list string := flat_map (render_stmt 0) p.
 Definition render_text (p : prog) : string := show_sep sep (fun x => x) (render p).
 
 (* one string per program for the correspondence check:
-   spec outcome | mech outcome | M's class tables | nontrivial | known class | source |
+   spec outcome | mech outcome | M's class tables | nontrivial | super in a nested function | source |
    mech outcome of the metamorphic variant | its source *)
 Definition run_case (p : prog) : string :=
   let m := eval_mech p in
   show_outcome (eval_spec p) ++ "|" ++ show_outcome m ++ "|" ++ show_tables (fst m) ++ "|"
-  ++ show_bool (nontrivial (fst m)) ++ "|" ++ show_bool (known_class p) ++ "|" ++ render_text p ++ "|"
+  ++ show_bool (nontrivial (fst m)) ++ "|" ++ show_bool (nested_super p) ++ "|" ++ render_text p ++ "|"
   ++ show_outcome (eval_mech (meta_prog p)) ++ "|" ++ render_text (meta_prog p).
